@@ -25,3 +25,8 @@ MUTATIONS = [
 NOTES = """A mutation that makes an accelerated path fail the library's own start-up self-test is *not* a violation of C03: the
 library then disables that path (with a warning) and computes the portable function.  Mutations above were chosen to
 pass the self-tests (or to trip an assertion)."""
+NOTES = NOTES + """
+Not caught, and rightly so: "CRC32C tail loop dropped", the two SHA-256 SSE2 rotate-constant changes and "AES-NI 256-bit round key reuse" all
+make the library's own start-up self-test (CPUSUPPORT_VALIDATE) fail, so the library disables the accelerated path with a warning and
+computes the portable function -- every output stays correct.  Independently seeded changes that pass the self-test (seeded/C03_1, C03_2)
+are caught."""
